@@ -10,6 +10,46 @@ COMMON_NOTE = ('Trusted: Coq 8.16.1 kernel, the hand-written Gallina model, Extr
 
 # id -> (technique, level text, level note, design ref)
 CLAIMED = {
+ 'C02': ('Coq proof (constructor = rank in sorted labels, round trip, lumped views; isolation on an aliasing model) + differential op-sequence correspondence with alias matrix',
+         'proof: the object reports the input back (all three label branches), states/index/counters, and a lumped object reports macro, micro and assignment, '
+         'for every trajectory set / consistent lumping (Coq theorems about the model); isolation is a theorem about the aliasing model (accessors and constructor copy); '
+         'the tie runs random and (thorough) exhaustive op sequences (reads, in-place writes into returned arrays and constructor arguments, reconstruction) on the real '
+         'classes and checks every read against the model of the original input plus np.shares_memory between all arrays.',
+         COMMON_NOTE + 'That NumPy copy/arithmetic/fancy-indexing allocate fresh arrays is an assumption, observed by shares_memory each run.',
+         'DESIGN.md section 6 C02'),
+ 'C03': ('Coq proof (row sums and stationarity of the projection on executable rational matrices, under run-time certified inverses; MathComp field-generic second proof) + differential correspondence within 1e-8',
+         'proof (partial): for the executable Hummer-Szabo formula on exact rationals, whenever it returns a matrix (exact certificates K Z = Z K = I, N M = M N = I pass) rows sum to one and '
+         'pi A is stationary (positive=False); positive=True gives non-negative rows summing to one; refusal of non-ergodic micro models and labels are theorems; invertibility itself is certified per '
+         'case, not proved. Tie: implementation vs exact matrix within 1e-8, labels, refusal, plus exact row-sum/stationarity checks of the implementation output.',
+         COMMON_NOTE + 'LAPACK inv/eig trusted within 1e-8; certificates can fail (reported as model failure, never observed).',
+         'DESIGN.md section 6 C03'),
+ 'C04': ('Coq proof (returned vector is a certified stationary probability vector; strict mode rejects) + differential correspondence within 1e-9 and exact relational checker',
+         'proof (partial): whatever the model returns is a probability vector stationary for T (ergodic) resp. for the renormalised restriction to the ergodic mask, and strict mode rejects every non-ergodic '
+         'input (theorems); uniqueness of the stationary vector is the textbook fact, stated but not proved. Tie: |pi_impl - pi_exact| <= 1e-9 where the exact vector is unique, the exact checker peq_ok on every accepted output, error iff.',
+         COMMON_NOTE + 'One genuine defect (periodic classes) is a recorded known finding.',
+         'DESIGN.md section 6 C04'),
+ 'C06': ('Coq proof (event automaton = reference extraction; loop erasure invariants; dictionary partition; sorted-merge intersection) + differential correspondence, exhaustive small scope',
+         'proof: for all trajectories and basins the automaton equals "first start-set frame while closed, then first later final-set frame", events are ordered/disjoint/inside one trajectory, loop-erased keys are duplicate-free, '
+         'end at the final frame, start at the last start-set frame, use only observed transitions, the dictionary partitions the events in occurrence order, validation by sorted merge = label-set test, public wrappers = reference '
+         '(all Coq theorems); tie: random multi-trajectory sets and exhaustive 4-label enumeration, JIT on/off.',
+         COMMON_NOTE,
+         'DESIGN.md section 6 C06'),
+ 'C11': ('Coq proof (counts additive, permutation invariant, cut = straddling pairs; per-trajectory map for coring/events) + metamorphic and differential runs',
+         'proof: counts of a set = sum over trajectories, invariant under reordering, a cut removes exactly the straddling pairs, coring/waiting times/pathways are per-trajectory maps (Coq theorems); '
+         'tie: the implementation on the set, a permutation, every single trajectory and a cut, compared with each other and with the exact model.',
+         COMMON_NOTE,
+         'DESIGN.md section 6 C11'),
+ 'C13': ('Coq proof (code-shaped computation = contingency formula; bounds, symmetry, refinement, permutation invariance) + differential correspondence within 1e-10',
+         'proof: the per-state index lists / sorted-merge counts / per-frame sum equal the contingency-table formulas, both values lie in [0,1], symmetric >= directed, swap symmetry, refinement and identical partitions give 1, '
+         'joint frame permutations change nothing, wrapper = formula incl. rejections (Coq theorems); tie: random pairs of labelings (N up to 3000, thorough 1e5; thread counts) against the exact rational value.',
+         COMMON_NOTE + 'float summation order of the parallel reduction is covered by the 1e-10 tolerance only.',
+         'DESIGN.md section 6 C13'),
+ 'C14': ('Coq proof (positive power entry iff walk; soundness of the power test; completeness for graphs with a self-loop; boolean powers) + two-layer differential correspondence',
+         'proof (partial): entry of T^k positive iff walk of length k; reported ergodic => strongly connected, aperiodic, primitive; ergodic => fuzzy; non-stochastic => neither; threshold-free equivalence; completeness proved for lazy-connected graphs with a self-loop '
+         '(2(n-1) <= (n-1)^2+1); the general Wielandt bound and the mask clause are compared against an independent exact graph algorithm (all 4x4 supports in the thorough tier), not proved. '
+         'Tie: implementation vs exact thresholded power away from the thresholds; model vs graph specification on threshold-free cases.',
+         COMMON_NOTE + 'np.linalg.matrix_power floats trusted away from the 1e-8 threshold (cases within 1e-12 skipped and counted).',
+         'DESIGN.md section 6 C14'),
  'C01': ('Coq proof (counting kernel = in-trajectory pair counts, constructor branches = rank, entry formula in Qc) + differential correspondence, bit-exact',
          'proof: the nested counting loop equals the table of frame pairs (k,k+lag) inside single trajectories, the three label->index '
          'branches all produce the rank in the ascending distinct labels, and T[i,j] = C_ij/sum_k C_ik with zero rows, entries in [0,1], row sums 0/1 '
